@@ -159,6 +159,12 @@ func (s *Server) acceptConnections(listener net.Listener, listenerType string) {
 func (s *Server) handleConnection(conn net.Conn) {
 	defer s.wg.Done()
 	defer func() { _ = conn.Close() }()
+	defer func() {
+		// A panic while serving one connection must not take the delivery service down
+		if r := recover(); r != nil {
+			log.Printf("LMTP connection handler panicked: %v", r)
+		}
+	}()
 
 	// Configure TCP options for better connection stability
 	if tcpConn, ok := conn.(*net.TCPConn); ok {
